@@ -15,7 +15,7 @@
 (*  WithQuery, ExtendQuery   the methods of the same names                   *)
 (*  Apply            dispatch on the recorded action name                    *)
 (***************************************************************************)
-EXTENDS ImplUrl
+EXTENDS ImplUrl, ContractQuoting
 
 IsGray(r) == "gray" \in DOMAIN r
 GRAY == [gray |-> TRUE]
@@ -243,10 +243,43 @@ ExtendQuery(be, u, q) ==
            qq == IF u.query # <<>> THEN (IF Last(u.query) = AMP THEN u.query \o nq ELSE u.query \o <<AMP>> \o nq) ELSE nq IN
        OK(Url(u.scheme, u.netloc, u.path, qq, u.fragment))
 
+\* ------------------------------------------------------------- update_query / without_query_params
+\* parse_qsl(query, keep_blank_values=True): for well-formed escape runs it is the Level A QueryPairs; a run that is not
+\* valid UTF-8 is decoded with U+FFFD replacement (Dev_QueryDecodeReplaces), which is outside the model: gray
+RECURSIVE BadRun(_, _)
+BadRun(t, i) == IF i > Len(t) THEN FALSE
+                ELSE IF IsPctAt(t, i) THEN (LET n == Utf8Len(EscRun(t, i, 4)) IN IF n = 0 THEN TRUE ELSE BadRun(t, i + 3 * n))
+                ELSE BadRun(t, i + 1)
+ParseQsl(query) == IF BadRun(query, 1) THEN GRAY ELSE OK(QueryPairs(query))
+StrTv(t) == [t |-> "str", s |-> t]
+UpdateQuery(be, u, q) ==
+  IF q.form = "kwargs" /\ q.pairs = <<>> THEN EXC("ValueError")
+  ELSE IF q.form = "none" THEN OK(Url(u.scheme, u.netloc, u.path, <<>>, u.fragment))
+  ELSE IF ~QueryTruthy(q) THEN OK(u)
+  ELSE LET old == ParseQsl(u.query) IN
+  IF IsGray(old) THEN GRAY
+  ELSE LET oldTv == [i \in 1..Len(old.ok) |-> <<old.ok[i][1], StrTv(old.ok[i][2])>>] IN
+  IF q.form = "str" THEN
+       (LET new == ParseQsl(q.s) IN
+        IF IsGray(new) THEN GRAY
+        ELSE LET newTv == [i \in 1..Len(new.ok) |-> <<new.ok[i][1], StrTv(new.ok[i][2])>>]
+                 r == PairsText(be, UpdatePairsSeq(oldTv, newTv), 1, FALSE) IN
+             IF IsOK(r) THEN OK(Url(u.scheme, u.netloc, u.path, JoinWith(r.ok, AMP), u.fragment)) ELSE r)
+  ELSE LET merged == UpdatePairsSeq(oldTv, q.pairs)
+           r == PairsText(be, merged, 1, q.form \in {"mapping", "multidict", "kwargs"}) IN
+       IF IsOK(r) THEN OK(Url(u.scheme, u.netloc, u.path, JoinWith(r.ok, AMP), u.fragment)) ELSE r
+WithoutQueryParams(be, u, keys) ==
+  LET old == ParseQsl(u.query) IN
+  IF IsGray(old) THEN GRAY
+  ELSE IF \A i \in 1..Len(old.ok) : old.ok[i][1] \notin Range(keys) THEN OK(u)
+  ELSE LET kept == SelectSeq(old.ok, LAMBDA p : p[1] \notin Range(keys))
+           r == PairsText(be, [i \in 1..Len(kept) |-> <<kept[i][1], StrTv(kept[i][2])>>], 1, FALSE) IN
+       OK(Url(u.scheme, u.netloc, u.path, JoinWith(r.ok, AMP), u.fragment))
+
 \* ------------------------------------------------------- dispatch on a recorded step
 \* (self: the receiver's five parts; other: the reference's five parts for join)
 Modelled == {"ctor", "build", "with_scheme", "with_user", "with_password", "with_host", "with_port", "with_fragment", "with_path",
-             "with_name", "with_suffix", "truediv", "joinpath", "parent", "origin", "relative", "with_query", "extend_query", "join"}
+             "with_name", "with_suffix", "truediv", "joinpath", "parent", "origin", "relative", "with_query", "extend_query", "update_query", "without_query_params", "join"}
 Apply(be, act, args, self, other) ==
   CASE act = "ctor" -> Ctor(be, args.s, args.encoded)
     [] act = "build" -> Build(be, args.kw)
@@ -266,5 +299,7 @@ Apply(be, act, args, self, other) ==
     [] act = "relative" -> Relative(self)
     [] act = "with_query" -> WithQuery(be, self, args.q)
     [] act = "extend_query" -> ExtendQuery(be, self, args.q)
+    [] act = "update_query" -> UpdateQuery(be, self, args.q)
+    [] act = "without_query_params" -> WithoutQueryParams(be, self, args.keys)
     [] act = "join" -> OK(Join(self, other))
 =============================================================================
